@@ -297,6 +297,45 @@ SubsampleModel(a, t) ==
                             [kept EXCEPT !.mat = [i \in 1..Len(kept.obs) |-> [j \in 1..Len(kept.samp) |-> cols[j][i]]]]
           IN RemoveEmpty(drawn, Other(ax))
 
+(********************************* files **********************************)
+RECURSIVE Flatten(_)
+Flatten(ss) == IF ss = <<>> THEN <<>> ELSE Head(ss) \o Flatten(Tail(ss))
+NZPos(v) == SelectSeq(IdxSeq(Len(v)), LAMBDA j : ~IsZero(v[j]))
+RECURSIVE Offsets(_, _)
+Offsets(lens, acc) == IF lens = <<>> THEN <<acc>> ELSE <<acc>> \o Offsets(Tail(lens), acc + Head(lens))
+\* compressed view of a sequence of vectors
+EncodeView(vecs) ==
+  [data |-> Flatten([k \in 1..Len(vecs) |-> [q \in 1..Len(NZPos(vecs[k])) |-> vecs[k][NZPos(vecs[k])[q]]]]),
+   indices |-> Flatten([k \in 1..Len(vecs) |-> [q \in 1..Len(NZPos(vecs[k])) |-> NZPos(vecs[k])[q] - 1]]),
+   indptr |-> Offsets([k \in 1..Len(vecs) |-> Len(NZPos(vecs[k]))], 0),
+   dt_data |-> "float64", dt_indices |-> "int32", dt_indptr |-> "int32"]
+MdNames(t, ax) == IF Md(t, ax).has /\ Len(Md(t, ax).rows) > 0
+                  THEN LET ks == SetToSeq(RowKeys(SeqSet(Md(t, ax).rows[1]))) IN
+                       [k \in 1..Len(ks) |-> [name |-> ks[k], len |-> Len(Ids(t, ax))]]
+                  ELSE <<>>
+EncodeRaw(t) ==
+  [attrs |-> [present |-> SetToSeq(ReqAttrs), id |-> IF t.tid = "" THEN "No Table ID" ELSE t.tid, type |-> t.type,
+              url |-> "http://biom-format.org", gen |-> "gen", date |-> "d", version |-> <<2, 1>>,
+              shape |-> <<Len(t.obs), Len(t.samp)>>, nnz |-> Nnz(t)],
+   groups |-> SetToSeq(ReqGroups), datasets |-> SetToSeq(ReqDatasets),
+   obs |-> EncodeView(t.mat) @@ [ids |-> t.obs, md |-> MdNames(t, "observation"), gmd |-> <<>>],
+   samp |-> EncodeView([j \in 1..Len(t.samp) |-> Col(t, j)]) @@ [ids |-> t.samp, md |-> MdNames(t, "sample"), gmd |-> <<>>]]
+ModelHdr == [gen |-> "gen", date |-> "d", gmd_obs |-> <<>>, gmd_samp |-> <<>>]
+HNorm(t) == [t EXCEPT !.tid = IF t.tid = "" THEN "No Table ID" ELSE t.tid]
+JNorm(t) == [t EXCEPT !.tid = ""]
+TsvNorm(t, key) ==
+  [t EXCEPT !.tid = "", !.type = "", !.smd = NoMd,
+            !.omd = IF key = "" THEN NoMd
+                    ELSE [has |-> TRUE, rows |-> [k \in 1..Len(t.obs) |->
+                            SetToSeq({e \in RowAt(t, "observation", k) : e[1] = key})]]]
+TsvExportable(t, key) ==
+  key = "" \/ (t.omd.has /\ \A k \in 1..Len(t.omd.rows) :
+                 \E e \in SeqSet(t.omd.rows[k]) : e[1] = key /\ e[2] = "l" /\ Len(e[3]) > 0)
+SubsetWant(whole, a) ==
+  LET f1 == FilterIds(whole, SeqSet(a.ids), a.axis, FALSE)
+      f2 == IF DropsEmpties(a.variant) THEN DropEmpty1(f1, Other(a.axis)) ELSE f1
+  IN IF a.variant = "from_hdf5_nomd" THEN StripMd(f2) ELSE f2
+
 (***************************** model events ******************************)
 NatSorted(ids) == SortSeq(ids, LAMBDA x, y : NatRank[x] < NatRank[y])
 SortF(f, ids) ==
@@ -392,6 +431,36 @@ ModelEvent(h, st) ==
      [] st.call = "subsample" ->
           LET r == Fresh(SubsampleModel(a, pre)) IN
           NewEv(st, h, TRUE, r, [ret_is_recv |-> FALSE, again_out |-> "ok", again |-> r])
+     [] st.call = "rt_hdf5" ->
+          IF InDomainC01(pre)
+          THEN LET w == IF a.save_via = "cli" /\ pre.type = "" THEN [pre EXCEPT !.type = "Table"] ELSE pre IN
+               Ev(st, h, Put(h, st.res, Fresh(HNorm(w))), "ok",
+                  [wrote |-> "ok", raw |-> EncodeRaw(w), hdr |-> ModelHdr, src_hdr |-> ModelHdr])
+          ELSE Ev(st, h, h, "error", [wrote |-> "refused", raw |-> EncodeRaw(pre), hdr |-> ModelHdr, src_hdr |-> ModelHdr])
+     [] st.call = "rt_json" ->
+          IF IsEmptyTable(pre)
+          THEN Ev(st, h, h, "error", [wrote |-> "ok", wellformed_string |-> TRUE, wellformed_stream |-> TRUE,
+                                      same_document |-> TRUE, hdr |-> ModelHdr, src_hdr |-> ModelHdr])
+          ELSE Ev(st, h, Put(h, st.res, Fresh(JNorm(pre))), "ok",
+                  [wrote |-> "ok", wellformed_string |-> TRUE, wellformed_stream |-> TRUE, same_document |-> TRUE,
+                   hdr |-> ModelHdr, src_hdr |-> ModelHdr])
+     [] st.call = "rt_tsv" ->
+          IF IsEmptyTable(pre) \/ ~TsvExportable(pre, a.header_key)
+          THEN Ev(st, h, h, "error", [wrote |-> "refused", hdr |-> ModelHdr, src_hdr |-> ModelHdr])
+          ELSE Ev(st, h, Put(h, st.res, Fresh(TsvNorm(pre, a.header_key))), "ok",
+                  [wrote |-> "ok", hdr |-> ModelHdr, src_hdr |-> ModelHdr])
+     [] st.call = "subset_read" ->
+          LET okw == IF a.fmt = "hdf5" THEN InDomainC01(pre) ELSE ~IsEmptyTable(pre)
+              whole == IF a.fmt = "hdf5" THEN HNorm(pre) ELSE JNorm(pre)
+              known == SeqSet(a.ids) \subseteq SeqSet(Ids(pre, a.axis))
+              want == SubsetWant(whole, a)
+          IN IF ~okw THEN Ev(st, h, h, "error", [wrote |-> "refused", whole_out |-> "ok", whole |-> Fresh(whole),
+                                                  styles_agree |-> TRUE, hdr |-> ModelHdr])
+             ELSE IF ~known \/ a.ids = <<>> \/ IsEmptyTable(want)
+             THEN Ev(st, h, h, "error", [wrote |-> "ok", whole_out |-> "ok", whole |-> Fresh(whole),
+                                         styles_agree |-> TRUE, hdr |-> ModelHdr])
+             ELSE Ev(st, h, Put(h, st.res, Fresh(want)), "ok",
+                     [wrote |-> "ok", whole_out |-> "ok", whole |-> Fresh(whole), styles_agree |-> TRUE, hdr |-> ModelHdr])
      [] OTHER -> Ev(st, h, h, "error", [nothing |-> TRUE])
 
 (************************** argument alphabets ***************************)
@@ -562,6 +631,37 @@ StepsFor(call, h, recv, res, full) ==
             bi \in BOOLEAN, wr \in BOOLEAN, sd \in (IF full THEN {0, 1, 7} ELSE {0})}
          \ {x \in {St(call, recv, res, [n |-> n, axis |-> ax, by_id |-> TRUE, with_replacement |-> TRUE, seed |-> sd]) :
                      n \in {1, 2, 3, 5, 9}, ax \in Axes, sd \in {0, 1, 7}} : TRUE}
+    [] call = "rt_hdf5" ->
+         {St(call, recv, res, [compress |-> c, save_via |-> sv, load_via |-> lv]) :
+            c \in BOOLEAN, sv \in (IF full THEN {"to_hdf5", "save_table", "cli"} ELSE {"to_hdf5"}),
+            lv \in (IF full THEN {"load_table", "parse_table", "from_hdf5"} ELSE {"load_table"})}
+    [] call = "rt_json" ->
+         {St(call, recv, res, [mode |-> md, gz |-> g, load_via |-> lv]) :
+            md \in {"string", "direct_io"}, g \in (IF full THEN BOOLEAN ELSE {FALSE}),
+            lv \in (IF full THEN {"load_table", "parse_table_handle", "parse_table_lines", "from_json_dict"}
+                    ELSE {"load_table"})}
+    [] call = "rt_tsv" ->
+         {St(call, recv, res, [header_key |-> "", save_via |-> sv, load_via |-> lv]) :
+            sv \in (IF full THEN {"to_tsv", "str", "direct_io", "cli"} ELSE {"to_tsv"}),
+            lv \in (IF full THEN {"from_tsv_lines", "from_tsv_handle", "parse_table_handle", "parse_table_lines",
+                                  "load_table", "load_table_gz", "cli"} ELSE {"load_table"})}
+         \cup
+         {St(call, recv, res, [header_key |-> "taxonomy", save_via |-> sv, load_via |-> lv]) :
+            sv \in (IF full THEN {"to_tsv", "direct_io", "cli"} ELSE {"to_tsv"}),
+            lv \in (IF full THEN {"from_tsv_lines", "from_tsv_handle", "cli"} ELSE {"from_tsv_lines"})}
+    [] call = "subset_read" ->
+         UNION {
+           LET ids == Ids(t, ax)
+               subs == IF full THEN ((SubSeqsOf(ids) \cup {Reverse(x) : x \in SubSeqsOf(ids)}) \ {<<>>})
+                                      \cup {FirstOf(ids) \o <<"zz">>}
+                       ELSE ({FirstOf(ids), Reverse(RestOf(ids))} \ {<<>>})
+           IN {St(call, recv, res, [variant |-> v, fmt |-> IF v \in {"parse_table_json", "parse_table_json_lines", "cli_subset_json"}
+                                                            THEN "json" ELSE "hdf5",
+                                    ids |-> s, axis |-> ax]) :
+                 v \in (IF full THEN {"from_hdf5", "from_hdf5_nomd", "parse_table_hdf5", "parse_table_json",
+                                      "parse_table_json_lines", "cli_subset_hdf5", "cli_subset_json"}
+                        ELSE {"from_hdf5", "parse_table_json"}),
+                 s \in subs} : ax \in Axes}
     [] OTHER -> {}
 
 (****************************** the machine ******************************)
@@ -598,5 +698,5 @@ ModelCoherent == \A s \in DOMAIN heap : C05_Coherent(heap[s])
 
 \* behaviour export: one JSON line per complete behaviour
 Emit == (Len(hist) = Depth) =>
-          PrintT(ToJson([tag |-> init.tag, init |-> init.heap, builds |-> init.builds, steps |-> hist]))
+          PrintT(ToJson([tag |-> init.tag, init |-> init.heap, builds |-> init.builds, gmd |-> init.gmd, steps |-> hist]))
 =============================================================================
